@@ -67,6 +67,14 @@ func main() {
 			os.Exit(2)
 		}
 		props.ProbeCopyLoss(p)
+	case "probe-tf":
+		cfg, _ := props.ConfigByName("default")
+		p, err := an.Load("/repo", cfg)
+		if err != nil {
+			fmt.Println(err)
+			os.Exit(2)
+		}
+		props.ProbeTransformFlags(p)
 	case "probe-la":
 		cfg, _ := props.ConfigByName("default")
 		p, err := an.Load("/repo", cfg)
